@@ -40,6 +40,8 @@ TRUSTED = [
     "directory, no loader installed), tools/props/C14.py (generators, comparison, file-name function and reason table of the built-in loader)",
     "ModLang.render (Gallina) produces the yarel text that is run: the mini-language semantics is tied to yarel "
     "only through the differential comparison",
+    "ownership-tag programs (tools/props/C14.py TagGen / tag_verdict): generator and oracle are Python; the oracle is the static "
+    "label -> module table of the generated text (no evaluator)",
 ]
 ASSUMPTIONS = [
     "one interpreter, one run (Vm::reset / a second Vm::execute belong to C15)",
@@ -47,7 +49,10 @@ ASSUMPTIONS = [
     "file loader is checked to do so for every kind of unreadable file)",
     "built-in file loader: one module per path TEXT (the same file under two spellings is two modules), paths relative to the "
     "process's current directory, Path::with_extension semantics - current behaviour, followed as M",
-    "fibers: only Fiber.new(closure).call() chains (no yield, no resumption); an exception that leaves a fiber ends the run (C09 owns fibers)",
+    "fibers: Fiber.new(closure).call() chains, and single-frame generator fibers (Fiber.new(<function of any module>) driven until "
+    "finished; Fiber.yield only at the top level of that function, outside try: for the module machinery a resumption is then a "
+    "first call and a yield is a finish); a fiber suspended with SEVERAL frames or inside try, and a module body suspended in an "
+    "abandoned fiber, are not modelled; an exception that leaves a fiber ends the run (C09 owns fibers)",
     "generated programs stay below the frame limit; the import at the frame limit is a fixed probe (and a theorem about M)",
 ]
 
@@ -91,6 +96,13 @@ def enc_stmt(s, out):
         for b in s[1]:
             enc_stmt(b, out)
         out += [0]
+    elif k == "yield":
+        out += [19]
+    elif k == "gen":
+        out += [22, s[1], s[2]]
+        for b in s[3]:
+            enc_stmt(b, out)
+        out += [0]
     elif k == "def":
         out += [20, s[1], s[2]]
     elif k == "fn":
@@ -124,6 +136,8 @@ def walk(stmts):
             yield from walk(s[1])
         elif s[0] == "fn":
             yield from walk(s[2])
+        elif s[0] == "gen":
+            yield from walk(s[3])
 
 
 def import_edges(prog):
@@ -200,6 +214,9 @@ class Gen:
         self.nfn = [r.randint(0, 3) if self.kinds[i] == "ok" else 0 for i in range(n)]
         self.clash = r.random() < 0.8
         self.escapes = r.random() < 0.35
+        # round 7: some modules export a generator function f6 (simple statements and top-level yields only, never called
+        # directly), driven through a fiber by whoever holds an alias of the module
+        self.has_gen = [self.kinds[i] == "ok" and r.random() < 0.35 for i in range(n)]
         prog = []
         for i in range(n):
             if self.kinds[i] == "missing":
@@ -246,6 +263,8 @@ class Gen:
                 out.append(("pa", code, 0 if r.random() < 0.8 else r.randint(0, 2)))
             elif k < 0.55:
                 out.append(("sa", code, 0 if r.random() < 0.7 else r.randint(0, 2), r.randint(50, 99)))
+            elif k < 0.62 and j < self.n and self.has_gen[j]:
+                out.append(("gen", code, 6, self.simple(r.randint(1, 3), False)))
             elif k < 0.63 and self.escapes:
                 # a function value leaves its module (slot f9 of the other module); only the main script's top level calls
                 # the slot, and a function body never does: the rank argument for termination is untouched
@@ -264,6 +283,28 @@ class Gen:
                     out.append(("calla", code, r.choice(cand)))
                 elif not infn and r.random() < 0.3:
                     out.append(("calla", code, r.randint(0, 3)))     # possibly missing attribute
+        return out
+
+    def simple(self, n, yields):
+        """call-free statements: bodies of generator functions (with top-level yields) and of `between` blocks"""
+        r = self.rng
+        out = []
+        for _ in range(n):
+            k = r.random()
+            if k < 0.3:
+                out.append(("pv", 0 if r.random() < 0.85 else r.randint(0, 2)))
+            elif k < 0.5:
+                out.append(("set", 0 if r.random() < 0.85 else r.randint(0, 2), r.randint(20, 49)))
+            elif k < 0.6:
+                out.append(("tag", r.randint(0, 99)))
+            elif k < 0.7:
+                out.append(("lam", [("set", 0, r.randint(20, 49)), ("pv", 0)]))
+            elif k < 0.78:
+                out.append(("bi", r.choice([0, 1, 2, 3])))
+            elif k < 0.84:
+                out.append(("try", [("throw",)]))
+            elif yields:
+                out.append(("yield",))
         return out
 
     def block(self, i, depth, rank, infn, aliases, scope_names, local, budget):
@@ -309,6 +350,8 @@ class Gen:
                         out.append(("fib", r.choice([1, 1, 2, 2, 3]), r.choice(cand)))
                     else:
                         out.append(("call", r.choice(cand)))
+            elif k < 0.815 and self.has_gen[i]:
+                out.append(("gen", 0, 6, self.simple(r.randint(1, 2), False)))
             elif k < 0.86:
                 out.append(("bi", r.choice([0, 1, 2, 0, 1, 2, 3])))
             elif k < 0.88 and depth < 2:
@@ -342,6 +385,8 @@ class Gen:
             else:
                 body = self.block(i, 1, (i, f), True, {}, set(), True, 3)
             tops.append(("fn", f, body))
+        if self.has_gen[i]:
+            tops.append(("fn", 6, self.simple(r.randint(1, 6), True)))
         tops.append(("tag", 10 * i))
         self.cur_main_top = (i == 0)
         tops += self.block(i, 0, (i, -1), False, {}, set(), False, 6)
@@ -493,7 +538,7 @@ class Checker:
         self.refspec = refspec_available()
         self.ref_evals = self.ref_failed = self.ref_diff = 0
         self.ref_examples = []
-        self.ref_sample = lambda n: min(n, 60 if ctx.quick() else 1200)
+        self.ref_sample = lambda n: min(n, 45 if ctx.quick() else 1200)
         self.retried = 0
         self.nontrivial = set()
         self.mism_m = 0
@@ -884,15 +929,69 @@ var x = 7;
 """
 
 
-def check_probes(ch):
+# round 7: the import at the frame limit as a FAMILY (was: one probe).  An import attempted when the running fiber has exactly
+# FRAMES_MAX frames registers the module and then fails BEFORE its body gets a frame (IndexError "Stack overflow.", caught);
+# nothing may stay behind: the next import of the path loads and runs the module.  Three places (main fiber, inside a fiber -
+# the limit is per fiber -, inside the body of another module that is still loading) x three depths (one frame short of the
+# limit: the import succeeds and later imports are cached; exactly at it; one beyond: the overflow hits the recursion itself).
+LIMIT_REC = 'fn rec(n) { if n == 0 { import "q"; return 0; } return rec(n - 1); }\n'
+LIMIT_TRY = 'try { rec(%d); print("imported"); } catch e { print(type(e)); print(e.context); }'
+LIMIT_AFTER = 'print("two");\nimport "q"; print(q.z); import "q" as q2; print(q2 == q);\n'
+LIMIT_Q = 'print("q body"); var z = 1;'
+
+
+def frame_limit_cases(fm):
+    cases = []
+    for where in ("main", "fiber", "module"):
+        exact = fm - 3 if where == "module" else fm - 2
+        for off, name in ((-1, "one-short"), (0, "exact"), (1, "one-beyond")):
+            n = exact + off
+            attempt = LIMIT_TRY % n
+            if where == "main":
+                main, mods = LIMIT_REC + 'print("one");\n' + attempt + "\n" + LIMIT_AFTER, {"q": LIMIT_Q}
+            elif where == "fiber":
+                main, mods = LIMIT_REC + 'print("one");\nFiber.new(|| { ' + attempt + " }).call();\n" + LIMIT_AFTER, {"q": LIMIT_Q}
+            else:
+                main = 'print("one");\nimport "a";\n' + LIMIT_AFTER
+                mods = {"q": LIMIT_Q, "a": LIMIT_REC + attempt}
+            pre = ["a"] if where == "module" else []
+            if off < 0:
+                want, loads = ["one", "q body", "imported", "two", "1", "true"], pre + ["q"]
+            elif off == 0:
+                want, loads = ["one", "<class IndexError>", "Stack overflow.", "two", "q body", "1", "true"], pre + ["q", "q"]
+            else:
+                want, loads = ["one", "<class IndexError>", "Stack overflow.", "two", "q body", "1", "true"], pre + ["q"]
+            cases.append(("%s/%s" % (where, name), main, mods, want, loads))
+    return cases
+
+
+def check_frame_limit_family(ch, fm, only=None):
     ctx = ch.ctx
+    cases = [c for c in frame_limit_cases(fm) if only is None or c[0] == only]
+    recs = yvlib.run_harness(ch.binary, [mods_line(m, mods) for (_, m, mods, _, _) in cases], case_timeout_ms=10000, shards=min(4, len(cases)))
+    for (name, main, mods, want, wl), rec in zip(cases, recs):
+        loads = [yvlib.unhx(x[0]).decode() for x in rec.tagged("LOAD")]
+        if rec.output != want or rec.result[0] != "ok" or loads != wl:
+            if len([v for v in ctx.violations if v.get("limit_case")]) < 2:
+                ctx.violation("import around the frame limit (%s): a failed import must leave nothing behind, a successful one is cached" % name,
+                              input=mods_line(main, mods), main=main, modules=mods, expected=want + ["LOAD " + l for l in wl],
+                              actual=rec.output + [str(rec.result)] + rec.messages[:2] + ["LOAD " + l for l in loads], limit_case=name)
+    return len(cases)
+
+
+def frames_max():
     consts = {}
     try:
         with open(os.path.join(yvlib.COQ, "gen", "manifest.json")) as fh:
             consts = json.load(fh).get("consts", {})
     except Exception:
         pass
-    fm = int(consts.get("FRAMES_MAX", 64))
+    return int(consts.get("FRAMES_MAX", 64))
+
+
+def check_probes(ch):
+    ctx = ch.ctx
+    fm = frames_max()
     rec = yvlib.run_harness(ch.binary, [mods_line(FRAME_LIMIT_MAIN % (fm - 2), {"q": 'print("q body"); var z = 1;'})], shards=1)[0]
     out = rec.output
     # the import at the frame limit fails cleanly (IndexError delivered to the handler, the handler's own `print` untouched,
@@ -909,7 +1008,7 @@ def check_probes(ch):
     if rec2.output != want2 or rec2.result[0] != "ok" or loads2 != ["m", "flag", "m"]:
         ctx.violation("re-import after a failed module body", input=REIMPORT_MAIN, expected=want2 + ["LOAD m", "LOAD flag", "LOAD m"],
                       actual=rec2.output + [str(rec2.result)] + ["LOAD " + l for l in loads2])
-    return 2
+    return 2 + check_frame_limit_family(ch, fm)
 
 
 # ------------------------------------------------------------------------------------------------
@@ -1055,6 +1154,304 @@ def escape_random(rng, n):
     return progs
 
 
+# ------------------------------------------------------------------------------------------------
+# round 7: a fiber whose FIRST frame is a function of another module than its caller's (statement SGen of ModLang):
+#   { var g_ = Fiber.new(<alias>.f6); while !g_.has_finished() { g_.call(); { between } } }
+# the function runs up to its first top-level Fiber.yield(), the caller runs `between`, resumes it, ... until it has finished.
+# Spec: the function's code reads / writes / creates closures in the module it was DEFINED in, on the first call and after
+# every resumption; the caller is back in ITS module after every yield and after the function has finished.
+# Sites of vm.rs this aims at: load_fiber (new / resumed), unload_fiber (Fiber.yield), return_impl's finished-fiber branch -
+# every one of them must re-derive Vm.active_module (load_frame).
+
+
+def gen_fn(f, segs):
+    body = []
+    for i, sg in enumerate(segs):
+        if i:
+            body.append(("yield",))
+        body += sg
+    return ("fn", f, body)
+
+
+def worker_tops(w, segs):
+    """module w as a worker: x0, x2 (a name ONLY workers have), helper f2, the generator function f6"""
+    return [("def", 0, 10 * w + 1), ("def", 2, 10 * w + 2), ("fn", 2, [("pv", 0)]), gen_fn(6, segs), ("tag", 10 * w)]
+
+
+M3_HELPER = ("ok", [("def", 0, 31), ("fn", 0, [("pv", 0)]), gen_fn(6, [[("pv", 0)], [("set", 0, 39), ("pv", 0)]]), ("tag", 30)])
+# x1 is a name ONLY the driving module has; x2 one only the worker has
+GEN_BETWEEN = [("pv", 0), ("set", 0, 5), ("pv", 0), ("lam", [("pv", 0)]), ("pv", 1)]
+GEN_SEGS = [
+    [[("pv", 0), ("set", 0, 77), ("pv", 0), ("pv", 2)]],                                     # no yield: the fiber FINISHES on its first call
+    [[("pv", 0)], [("set", 0, 77), ("pv", 0), ("pv", 2)]],
+    [[("pv", 0), ("lam", [("set", 0, 70), ("pv", 0)])], [("call", 2), ("pv", 2)], [("set", 0, 79), ("pv", 0)]],
+    [[("imp", 3, 2), ("pa", 2, 0)], [("pa", 2, 0), ("calla", 2, 0), ("pv", 0)]],           # a local alias lives across the yield
+    [[("try", [("throw",)]), ("pv", 0)], [("try", [("pa", 2, 0)]), ("pv", 0)]],
+    [[("fib", 2, 2)], [("fib", 1, 2), ("pv", 0)]],
+    [[("pv", 0)], [("throw",)]],                                                               # not caught inside the fiber: fatal
+    [[("imp", 3, 2), ("gen", 2, 6, [("pv", 0)])], [("pv", 0)]],                              # the generator drives a generator of a third module
+]
+
+
+def gen_driver(d, g, worker, extra_main=()):
+    """-> program; g = the SGen statement, worker = tops of m1"""
+    m1 = ("ok", worker)
+    after = [("pv", 0), ("pv", 1)]
+    mdefs = [("def", 0, 1), ("def", 1, 2)]
+    if d == 0:      # the main script's top level
+        return [("ok", mdefs + [("imp", 1, 0), g] + after + [("pa", 101, 0)]), m1, ("ok", []), M3_HELPER]
+    if d == 1:      # a function of main
+        return [("ok", mdefs + [("fn", 5, [("imp", 1, 0), g] + after), ("call", 5)] + after), m1, ("ok", []), M3_HELPER]
+    if d == 2:      # inside try
+        return [("ok", mdefs + [("try", [("imp", 1, 0), g] + after)] + after), m1, ("ok", []), M3_HELPER]
+    if d == 3:      # inside a closure created at run time
+        return [("ok", mdefs + [("imp", 1, 0), ("lam", [g] + after)] + after), m1, ("ok", []), M3_HELPER]
+    if d == 4:      # driven from inside two nested fibers
+        return [("ok", mdefs + [("fn", 5, [("imp", 1, 0), g] + after), ("fib", 2, 5)] + after), m1, ("ok", []), M3_HELPER]
+    if d == 5:      # driven by the body of lib/m2 while lib/m2 is still loading
+        m2 = ("ok", [("def", 0, 21), ("def", 1, 22), ("imp", 1, 0), g] + after + [("tag", 20)])
+        return [("ok", mdefs + [("imp", 2, 0)] + after + [("pa", 102, 0)]), m1, m2, M3_HELPER]
+    if d == 6:      # driven by a function of lib/m2 called from main: three modules on the way
+        m2 = ("ok", [("def", 0, 21), ("def", 1, 22), ("fn", 1, [("imp", 1, 0), g] + after), ("tag", 20)])
+        return [("ok", mdefs + [("imp", 2, 0), ("calla", 102, 1)] + after + [("pa", 102, 0)]), m1, m2, M3_HELPER]
+    # d == 7: the generator is a function of the driving module itself (a = 0)
+    own = [t for t in worker if not (t[0] == "def" and t[1] == 0) and t[0] != "tag"]
+    return [("ok", mdefs + own + [("gen", 0, 6, g[3])] + after), ("ok", []), ("ok", []), M3_HELPER]
+
+
+def generator_fixed():
+    progs = []
+    for segs in GEN_SEGS:
+        for d in range(8):
+            progs.append(gen_driver(d, ("gen", 101, 6, GEN_BETWEEN), worker_tops(1, segs)))
+    # `between` throws after the first hand-back: caught by a try around the whole drive (the fiber stays suspended), the
+    # driver goes on in its own globals
+    for segs in GEN_SEGS[:3]:
+        for d in (2,):
+            progs.append(gen_driver(d, ("gen", 101, 6, [("pv", 0), ("throw",)]), worker_tops(1, segs)))
+    return progs
+
+
+GEN_SEG_STMTS = [
+    [("pv", 0)], [("set", 0, 71)], [("pv", 2)], [("set", 2, 72), ("pv", 2)], [("call", 2)], [("lam", [("pv", 0)])],
+    [("lam", [("set", 0, 73)]), ("pv", 0)], [("try", [("throw",)])], [("fib", 1, 2)], [("bi", 0)], [("bi", 3)], [("tag", 7)],
+    [("blk", [("pv", 0)])], [("try", [("pv", 1)])], [("imp", 3, 2), ("pa", 2, 0)], [("try", [("pa", 2, 0)])],
+    [("try", [("imp", 3, 3), ("gen", 3, 6, [("pv", 0)])])], [("lam", [("lam", [("set", 0, 74), ("pv", 0)])])],
+]
+GEN_BETWEEN_STMTS = [
+    [("pv", 0)], [("set", 0, 6), ("pv", 0)], [("pv", 1)], [("lam", [("pv", 0)])], [("lam", [("set", 0, 8)]), ("pv", 0)],
+    [("pa", 101, 0)], [("sa", 101, 0, 15)], [("try", [("pv", 2)])], [("bi", 1)], [("tag", 3)], [("calla", 101, 2)],
+    [("try", [("throw",)]), ("pv", 0)],
+]
+
+
+def generator_random(rng, n):
+    progs = []
+    for _ in range(n):
+        segs = []
+        for _ in range(rng.choice([1, 1, 2, 2, 3, 4])):
+            sg = []
+            for _ in range(rng.randint(0, 3)):
+                sg += rng.choice(GEN_SEG_STMTS)
+            segs.append(sg)
+        # at most one binding of a local alias per function body
+        seen = set()
+        for sg in segs:
+            for i in range(len(sg) - 1, -1, -1):
+                if sg[i][0] == "imp":
+                    if sg[i][2] in seen:
+                        del sg[i]
+                    else:
+                        seen.add(sg[i][2])
+        d = rng.randrange(8)
+        between = []
+        for _ in range(rng.randint(1, 3)):
+            between += rng.choice(GEN_BETWEEN_STMTS)
+        if d == 7:
+            between = [b for b in between if not (b[0] in ("pa", "sa", "calla") and b[1] == 101)] or [("pv", 0)]
+        progs.append(gen_driver(d, ("gen", 101, 6, between), worker_tops(1, segs)))
+    return progs
+
+
+# ------------------------------------------------------------------------------------------------
+# round 7, beyond the mini-language: OWNERSHIP-TAG programs (yarel text, self-checking).  Every module has `var who = "<its
+# name>"` and a counter `var n = 0`; the only observable action is  P = `n = n + 1; print("L<id> " + who);`  with a label id that
+# is unique in the program, so the module whose SOURCE contains the label is known statically (owner[id]).  Around the P's:
+# direct calls into other modules, closures, try / throw / catch, fibers created from functions of other modules, Fiber.yield
+# from nested frames (a fiber suspended with several frames of several modules), yields inside try, fibers handed to a `drive`
+# function of a third module, fibers that finish at once.  Spec (lexical globals, no evaluator needed): the run ends ok; every
+# printed line `L<id> <who>` has who == owner[id]; at the end module m's n == number of lines printed by m's labels.
+# Termination / validity by construction: calls and drives go to functions of strictly higher (module, index) rank; only
+# "fiber" functions yield, and they are entered only through Fiber.new or from another fiber function.
+
+TAG_NAMES = ["main", "ta", "tb", "tc"]
+
+
+class TagGen:
+    def __init__(self, rng, nmods=4, nfn=3):
+        self.r = rng
+        self.nmods, self.nfn = nmods, nfn
+        self.owner = {}
+        self.nlab = 0
+        self.cost = {}
+        self.kind = {}
+
+    def P(self, m):
+        self.nlab += 1
+        self.owner[self.nlab] = m
+        return 'n = n + 1; print("L%d " + who);' % self.nlab
+
+    def ref(self, m, t):
+        return ("t%d" % t[1]) if t[0] == m else "%s.t%d" % (TAG_NAMES[t[0]], t[1])
+
+    def body(self, m, rank, fiber, depth, budget):
+        """-> (text, cost)"""
+        r = self.r
+        parts, cost = [self.P(m)], 1
+        for _ in range(r.randint(1, 4 if depth == 0 else 2)):
+            k = r.random()
+            higher = [t for t in self.cost if t > rank and t[0] >= m and cost + self.cost[t] < budget]
+            if k < 0.2:
+                parts.append(self.P(m))
+                cost += 1
+            elif k < 0.4 and fiber:
+                parts += ["Fiber.yield();", self.P(m)]
+                cost += 1
+            elif k < 0.58:
+                cands = [t for t in higher if fiber or self.kind[t] == "plain"]
+                if cands:
+                    t = r.choice(cands)
+                    parts += ["%s();" % self.ref(m, t), self.P(m)]
+                    cost += self.cost[t] + 1
+            elif k < 0.78:
+                if higher:
+                    t = r.choice(higher)
+                    drv = r.choice([None] + list(range(m, self.nmods)))
+                    if drv is None:
+                        parts.append("{ var g_ = Fiber.new(%s); while !g_.has_finished() { g_.call(); %s } }" % (self.ref(m, t), self.P(m)))
+                    else:
+                        d = "drive" if drv == m else "%s.drive" % TAG_NAMES[drv]
+                        parts.append("{ var g_ = Fiber.new(%s); %s(g_); }" % (self.ref(m, t), d))
+                    parts.append(self.P(m))
+                    cost += 3 * self.cost[t] + 2
+            elif k < 0.9 and depth < 2:
+                inner, c = self.body(m, rank, fiber, depth + 1, budget - cost)
+                parts.append('try { %s throw "t"; } catch e_ { %s }' % (inner, self.P(m)))
+                cost += c + 1
+            elif depth < 2:
+                inner, c = self.body(m, rank, fiber, depth + 1, budget - cost)
+                parts.append("{ var c_ = || { %s }; c_(); }" % inner)
+                parts.append(self.P(m))
+                cost += c + 1
+        return " ".join(parts), cost
+
+    def program(self):
+        r = self.r
+        fns = {}
+        order = [(m, i) for m in range(self.nmods) for i in range(self.nfn)]
+        for t in order:
+            self.kind[t] = r.choice(["plain", "fiber", "fiber"])
+        for t in reversed(order):                         # callees first: their cost is known
+            txt, c = self.body(t[0], t, self.kind[t] == "fiber", 0, 120)
+            fns[t] = txt
+            self.cost[t] = c
+        srcs = []
+        for m in range(self.nmods):
+            L = ['var who = "%s"; var n = 0;' % TAG_NAMES[m]]
+            L += ['import "%s";' % TAG_NAMES[j] for j in range(m + 1, self.nmods)]
+            L.append("fn drive(f_) { while !f_.has_finished() { f_.call(); %s } }" % self.P(m))
+            for i in range(self.nfn):
+                L.append("fn t%d() { %s }" % (i, fns[(m, i)]))
+            srcs.append(L)
+        # the main script: every plain function of main directly, every function of every module through a fiber driven by
+        # main or handed to some module's drive
+        main = srcs[0]
+        for t in order:
+            if t[0] == 0 and self.kind[t] == "plain":
+                main.append("t%d(); %s" % (t[1], self.P(0)))
+        picks = [t for t in order if r.random() < 0.5] or [order[-1]]
+        for t in picks:
+            drv = r.choice([None] + list(range(self.nmods)))
+            if drv is None:
+                main.append("{ var g_ = Fiber.new(%s); while !g_.has_finished() { g_.call(); %s } }" % (self.ref(0, t), self.P(0)))
+            else:
+                d = "drive" if drv == 0 else "%s.drive" % TAG_NAMES[drv]
+                main.append("{ var g_ = Fiber.new(%s); %s(g_); } %s" % (self.ref(0, t), d, self.P(0)))
+        main.append('print("N main"); print(n);')
+        for j in range(1, self.nmods):
+            main.append('print("N %s"); print(%s.n);' % (TAG_NAMES[j], TAG_NAMES[j]))
+        mods = {TAG_NAMES[j]: "\n".join(srcs[j]) for j in range(1, self.nmods)}
+        return "\n".join(main), mods, {str(k): v for k, v in self.owner.items()}
+
+
+def tag_verdict(rec, owner):
+    """-> None when the run satisfies the Spec, else a description"""
+    if rec.result[0] != "ok":
+        return "the run does not end ok: %s %s" % (rec.result, rec.messages[:2])
+    lines = [l for o in rec.output for l in o.split("\n")]
+    counts = {}
+    i = 0
+    seen_n = 0
+    while i < len(lines):
+        l = lines[i]
+        mm = re.match(r"^L(\d+) (\w+)$", l)
+        if mm:
+            own = owner.get(mm.group(1))
+            if own is None or TAG_NAMES[own] != mm.group(2):
+                return "line %d `%s`: printed by code of module %s but it read the global `who` of module %s" % (
+                    i, l, TAG_NAMES[own] if own is not None else "?", mm.group(2))
+            counts[own] = counts.get(own, 0) + 1
+            i += 1
+            continue
+        mm = re.match(r"^N (\w+)$", l)
+        if mm and i + 1 < len(lines):
+            m = TAG_NAMES.index(mm.group(1))
+            if lines[i + 1] != str(counts.get(m, 0)):
+                return "module %s: its counter n is %s but its code ran %d increments (a write went to another module's globals)" % (
+                    mm.group(1), lines[i + 1], counts.get(m, 0))
+            seen_n += 1
+            i += 2
+            continue
+        return "unexpected line %r" % l
+    if seen_n != len(TAG_NAMES):
+        return "the final counters are missing"
+    return None
+
+
+def check_tag_programs(ch, n, only=None):
+    ctx = ch.ctx
+    if only is not None:
+        cases = [(only["main"], only["modules"], only["owner"])]
+    else:
+        cases = [TagGen(ctx.rng).program() for _ in range(n)]
+    lines = [mods_line(m, mods, "gc=always" if i % 9 == 0 else "-") for i, (m, mods, _) in enumerate(cases)]
+    recs = yvlib.run_harness(ch.binary, lines, case_timeout_ms=10000)
+    bad = [i for i, r in enumerate(recs) if r.crashed]
+    if bad:
+        # (machine load: a collecting debug build under a 10x oversubscribed CPU) re-run alone, generously, before believing it
+        again = yvlib.run_harness(ch.binary, [lines[i] for i in bad], case_timeout_ms=90000, shards=min(2, len(bad)))
+        for i, r in zip(bad, again):
+            recs[i] = r
+        ch.retried += len(bad)
+    nl = 0
+    for (main, mods, owner), rec in zip(cases, recs):
+        nl += sum(len(o.split("\n")) for o in rec.output)
+        why = tag_verdict(rec, owner)
+        if rec.uaf:
+            why = (why or "") + " use of a reclaimed object"
+        if why:
+            ch.mism_s += 1
+            if len([v for v in ctx.violations if v.get("tag_case")]) < 2:
+                ctx.violation("ownership-tag program: code of one module ran with another module's globals (calls / closures / try / fibers "
+                              "created from functions of other modules, yielding from nested frames, driven by a third module): " + why,
+                              input=mods_line(main, mods), main=main, modules=mods, expected="every line L<id> <who> has who == the module "
+                              "whose source contains L<id>; final counters = lines per module; result ok",
+                              actual=[l for o in rec.output for l in o.split("\n")][-12:] + [str(rec.result)] + rec.messages[:2],
+                              tag_case={"main": main, "modules": mods, "owner": owner})
+    ch.tag_lines = getattr(ch, "tag_lines", 0) + nl
+    return len(cases)
+
+
 USE_NAMES = ["RuntimeError", "clock", "type", "print", "Type", "Object", "Nil", "Bool", "Num", "Func", "BuiltIn", "Method",
              "BuiltInMethod", "String", "Iter", "MapIter", "FilterIter", "Tuple", "Vec", "Range", "HashMap", "Fiber", "Error",
              "AttributeError", "IndexError", "ImportError", "NameError", "TypeError", "ValueError", "StopIter"]   # = ModLang.use_names
@@ -1173,6 +1570,10 @@ def run(ctx):
     if ctx.replay_only:
         if "prog" in ctx.replay_only:
             ch.check([detuple(ctx.replay_only["prog"])], "replay", "replay")
+        elif "tag_case" in ctx.replay_only:
+            check_tag_programs(ch, 1, only=ctx.replay_only["tag_case"])
+        elif "limit_case" in ctx.replay_only:
+            check_frame_limit_family(ch, frames_max(), ctx.replay_only["limit_case"])
         elif "name_family" in ctx.replay_only:
             check_name_text(ch, [ctx.replay_only["name_family"]])
         elif "fs_prog" in ctx.replay_only:
@@ -1191,13 +1592,21 @@ def run(ctx):
     ch.check(fibs, "fibers", "imports through nested fibers (fixed regression family)")
     fib_models = ch.last_models
     # a function that outlives the failed load that defined it: fixed regression programs + randomised instances of the shape
-    esc = escape_fixed() + escape_random(rng, 60 if quick else 900)
+    esc = escape_fixed() + escape_random(rng, 40 if quick else 900)
     ch.check(esc, "escape", "a function outlives the failed load that defined it: it keeps the old instance's globals")
     esc_models = ch.last_models
+    # round 7: a fiber whose first frame is a function of another module - finishing at once, yielding, resumed
+    gens = generator_fixed() + generator_random(rng, 30 if quick else 600)
+    ch.check(gens, "generators", "a fiber whose first frame is a function of another module (finishes / yields / is resumed): "
+                                 "it runs in its own module's globals, the caller is back in its own after every hand-back")
+    gen_models = ch.last_models
+    ch.ngen = len(gens)
+    ch.ntag = check_tag_programs(ch, 30 if quick else 600)
     # the built-in file-system loader: directed cases, tests/scripts/modules, and model programs served as files
     nfs = check_fs_cases(ch) + check_fs_corpus(ch)
     kfs = 24 if quick else len(esc)
-    nfs += check_fs_models(ch, fibs + esc[:kfs], fib_models + esc_models[:kfs])
+    kgf = 16 if quick else len(gens)
+    nfs += check_fs_models(ch, fibs + esc[:kfs] + gens[:kgf], fib_models + esc_models[:kfs] + gen_models[:kgf])
     ch.nfs = nfs
     ch.nesc = len(esc)
     inst, core, misinst = source_names()
@@ -1227,7 +1636,7 @@ def run(ctx):
         nshapes = nrnd = 0
         while time.time() < deadline and not ctx.violations:
             chunk = [g.program() for _ in range(200)] + [shape_program(rng.choice(base), rng.random() < 0.5, ["ok"] * 4) for _ in range(60)] \
-                + escape_random(rng, 60)
+                + escape_random(rng, 60) + generator_random(rng, 60)
             ch.check(chunk, "search", "search")
             nrnd += 240
             nshapes += 80
@@ -1236,7 +1645,7 @@ def run(ctx):
     shapes = []
     edge_sets = list(all_edge_sets(4))
     if quick:
-        edge_sets = [edge_sets[0], edge_sets[-1]] + rng.sample(edge_sets, 110)
+        edge_sets = [edge_sets[0], edge_sets[-1]] + rng.sample(edge_sets, 90)
     for es in edge_sets:
         for wrap in (False, True):
             shapes.append(shape_program(es, wrap, ["ok"] * 4))
@@ -1253,7 +1662,7 @@ def run(ctx):
     ch.nfs += check_fs_models(ch, shapes[-kfs:], ch.last_models[-kfs:])
     # 3. random programs
     g = Gen(rng)
-    rnd = [g.program() for _ in range(360 if quick else 4000)]
+    rnd = [g.program() for _ in range(300 if quick else 4000)]
     ch.check(rnd, "random", "random")
     return finish(ctx, ch, quick, ncorpus, nprobe, nshapes, len(rnd), fibs, nprogs, covered, uncovered, ntext, text_ok)
 
@@ -1280,8 +1689,9 @@ def finish(ctx, ch, quick, ncorpus, nprobe, nshapes, nrnd, fibs, nprogs, covered
         ctx.notes.append("finding %s reproduced on %d case(s); recorded in notes/C14-findings.json (%s), not yet an open class of known_findings.json"
                          % (cls, n, "present" if cls in findings else "MISSING"))
     ctx.cov.update({
-        "evaluations": ch.evals + ncorpus + nprobe + ntext + getattr(ch, "nfs", 0),
-        "escaped_function_programs": getattr(ch, "nesc", 0), "file_system_loader_cases": getattr(ch, "nfs", 0),
+        "evaluations": ch.evals + ncorpus + nprobe + ntext + getattr(ch, "nfs", 0) + getattr(ch, "ntag", 0),
+        "ownership_tag_programs": getattr(ch, "ntag", 0), "ownership_tag_lines_checked": getattr(ch, "tag_lines", 0),
+        "escaped_function_programs": getattr(ch, "nesc", 0), "generator_fiber_programs": getattr(ch, "ngen", 0), "file_system_loader_cases": getattr(ch, "nfs", 0),
         "startup_names_covered": covered, "startup_names_uncovered": uncovered,
         "startup_name_programs": len(nprogs), "startup_name_text_cases": ntext, "startup_names_same_in_modules_as_in_main": text_ok,
         "distinct_nontrivial": len(ch.nontrivial),
@@ -1296,7 +1706,14 @@ def finish(ctx, ch, quick, ncorpus, nprobe, nshapes, nrnd, fibs, nprogs, covered
                 "(ii-e) a function that outlives the failed load that defined it (stored in another module before the load failed; the path "
                 "loaded again inside the old function / by the main script / never successfully): the old function reads, writes, creates and "
                 "calls closures, calls functions of its instance, through try / fibers / closures - fixed regression programs + randomised "
-                "instances; (ii-f) the built-in file-system loader (no host loader installed, a fresh temporary directory): modules in the "
+                "instances; (ii-g) a fiber whose FIRST frame is a function of another module than its caller's (Fiber.new(<alias>.f6), driven "
+                "until it has finished): 0-3 top-level yields, segments that read / write / create closures / call / import (a local alias "
+                "living across a yield) / start fibers / drive a generator of a third module / throw, x 8 drivers (main top level, a function, "
+                "try, a closure, two nested fibers, the body of a still-loading module, a function of a third module, the generator's own "
+                "module) - fixed programs + randomised instances, also inside the random programs; (ii-h) self-checking ownership-tag programs "
+                "(yarel text, 4 modules x 3 functions + drive): every print shows the global `who` of the running code's module and bumps its "
+                "counter, around direct calls, closures, try / throw, fibers made from functions of other modules that yield from nested frames "
+                "and inside try, handed to a drive function of a third module or finishing at once - every line must show its owner; (ii-f) the built-in file-system loader (no host loader installed, a fresh temporary directory): modules in the "
                 "current directory / sub-directories / through '..', one file under several spellings, missing file, path through a plain file, a "
                 "directory named like the module, over-long names, non-UTF-8 content, mode 000, a module importing a missing one, caught and "
                 "uncaught; tests/scripts/modules and ModLang programs (fibers, escape family, graph shapes with missing / uncompilable members) "
@@ -1322,6 +1739,8 @@ def detuple(p):
             return (x[0], [st(y) for y in x[1]])
         if x[0] == "fn":
             return ("fn", x[1], [st(y) for y in x[2]])
+        if x[0] == "gen":
+            return ("gen", x[1], x[2], [st(y) for y in x[3]])
         return tuple(x)
     return [("ok", [st(t) for t in m[1]]) if m[0] == "ok" else tuple(m) for m in p]
 
